@@ -372,4 +372,54 @@ theorem nuniqCards_80 (w depth : Nat) (hd : depth ≤ 255) : Cards80 (nuniqCards
     (cards80_cons (cardFree_length _ _ rfl (by omega)) (cards80_cons (cardFree_length _ _ rfl (by omega))
     (cards80_cons htf (cards80_cons (by decide) cards80_nil))))))))
 
+theorem quoted_length (v : List Char) : (quoted v).length = v.length + 2 := by simp [quoted]
+
+theorem optCard_80 (kw : List Char) (hk : kw.length = 8) (o : Option (List Char)) (ho : ∀ v, o = some v → v.length ≤ 68) :
+    Cards80 (optCard kw o) := by
+  cases o with
+  | none => exact cards80_nil
+  | some v =>
+    exact cards80_cons (cardFree_length _ _ hk (by rw [quoted_length]; have := ho v rfl; omega)) cards80_nil
+
+theorem optCard_count (kw : List Char) (o : Option (List Char)) : (optCard kw o).length ≤ 1 := by
+  cases o <;> simp [optCard]
+
+theorem mocCardsWith_80 (q : Qty) (w depth : Nat) (id ty : Option (List Char)) (hd : depth ≤ 255)
+    (hid : ∀ v, id = some v → v.length ≤ 68) (hty : ∀ v, ty = some v → v.length ≤ 68) :
+    Cards80 (mocCardsWith q w depth id ty) := by
+  have hsn : (showNat depth).length ≤ 3 := showNat_length 2 depth (by omega)
+  have hord : ∀ kw : List Char, kw.length = 8 → (cardFree kw (showNat depth)).length = 80 :=
+    fun kw hk => cardFree_length kw _ hk (by omega)
+  have htf : (cardFree ['T', 'F', 'O', 'R', 'M', '1', ' ', ' '] (quoted (tform w))).length = 80 :=
+    cardFree_length _ _ rfl (by simp [quoted, tform_length])
+  have hidc := optCard_80 ['M', 'O', 'C', 'I', 'D', ' ', ' ', ' '] rfl id hid
+  have htyc := optCard_80 ['M', 'O', 'C', 'T', 'Y', 'P', 'E', ' '] rfl ty hty
+  unfold mocCardsWith
+  simp only []
+  apply cards80_append
+  · refine cards80_cons (by decide) (cards80_cons ?_ (cards80_cons (by decide) cards80_nil))
+    split
+    · decide
+    · split <;> decide
+  · split
+    · exact cards80_append (cards80_append (cards80_append (cards80_append (cards80_cons (by decide) cards80_nil) hidc)
+        (cards80_cons (by decide) cards80_nil)) htyc)
+        (cards80_cons (hord _ rfl) (cards80_cons htf (cards80_cons (by decide) cards80_nil)))
+    · split
+      · exact cards80_append (cards80_append (cards80_append (cards80_append (cards80_cons (by decide) cards80_nil) hidc)
+          (cards80_cons (by decide) cards80_nil)) htyc)
+          (cards80_cons (hord _ rfl) (cards80_cons htf (cards80_cons (by decide) cards80_nil)))
+      · exact cards80_append (cards80_append (cards80_append hidc (cards80_cons (by decide) cards80_nil)) htyc)
+          (cards80_cons htf (cards80_cons (by decide) (cards80_cons (hord _ rfl) cards80_nil)))
+
+theorem mocCardsWith_count (q : Qty) (w depth : Nat) (id ty : Option (List Char)) :
+    (mocCardsWith q w depth id ty).length ≤ 10 := by
+  have h1 := optCard_count ['M', 'O', 'C', 'I', 'D', ' ', ' ', ' '] id
+  have h2 := optCard_count ['M', 'O', 'C', 'T', 'Y', 'P', 'E', ' '] ty
+  unfold mocCardsWith
+  simp only [List.length_append, List.length_cons, List.length_nil]
+  split
+  · simp only [List.length_append, List.length_cons, List.length_nil]; omega
+  · split <;> (simp only [List.length_append, List.length_cons, List.length_nil]; omega)
+
 end Moc.Fits
